@@ -585,7 +585,11 @@ class Executor:
         if isinstance(n, ast.AugAssign):
             cur = ev.eval(_load(n.target))
             ev._aug_target = n.target
-            v = ev.binop(n.op, cur, ev.eval(n.value), n)
+            self.aug_target = n.target      # visible to the contract's binop hook: `view op= x` writes through
+            try:
+                v = ev.binop(n.op, cur, ev.eval(n.value), n)
+            finally:
+                self.aug_target = None
             if isinstance(cur, Arr) and isinstance(v, Arr) and isinstance(n.target, ast.Name):
                 # `a op= b` on an ndarray writes through (the name keeps denoting the same array)
                 self._store(st, cur, ast.Slice(lower=None, upper=None, step=None), v, n, ev)
@@ -1009,6 +1013,8 @@ class Executor:
         return (o.oid, attr)
 
     def _havoc_like(self, st, v, name):
+        if is_z3(v) and z3.is_array_sort(v):          # first: a Lambda is a QuantifierRef, which z3py also counts as a BoolRef
+            return z3.FreshConst(v.sort(), name)
         if isinstance(v, bool) or (is_z3(v) and z3.is_bool(v)):
             return fresh(name, "bool")
         if is_int(v):
@@ -1394,6 +1400,9 @@ class Evaluator:
                     return simp(z3.ToReal(z3.ToInt(to_real(za) / to_real(zb))))
                 raise Outside("floor division of reals")
             return self.floordivmod(op, za, zb, n)
+        if isinstance(op, (ast.LShift, ast.RShift)) and not real and concrete(b) and isinstance(b, int) and 0 <= b <= 64:
+            # Python ints: x << k == x * 2**k, x >> k == floor(x / 2**k) (z3's Int division by a positive constant is the floor)
+            return simp(za * (1 << b)) if isinstance(op, ast.LShift) else simp(za / (1 << b))
         if isinstance(op, ast.Pow):
             if concrete(b) and isinstance(b, int) and 0 <= b <= 4:
                 r = z3.RealVal(1) if real else z3.IntVal(1)
